@@ -642,6 +642,16 @@ def run_job(job: dict) -> dict:
     return rec
 
 
+def safe_job(job: dict) -> dict:
+    """run_job, but an unexpected OS-level failure of one project (copying a corpus tree, reading artefacts) is recorded
+    as 'not configured' with a note instead of aborting the whole run"""
+    try:
+        return run_job(job)
+    except (OSError, UnicodeError, shutil.Error) as e:
+        return {'job': {k: v for k, v in job.items() if k != 'scratch'}, 'ok': False, 'rc': -1, 'wall': 0.0,
+                'timeout': False, 'error': f'harness: {type(e).__name__}: {e}'[:200], 'harness_error': True}
+
+
 def make_jobs(ctx: Ctx, scratch: str) -> T.List[dict]:
     rng = ctx.rng
     jobs: T.List[dict] = []
@@ -746,7 +756,7 @@ def run_projects(ctx: Ctx, oracle_only: bool = False, jobs_fn=make_jobs) -> T.Li
     try:
         jobs = jobs_fn(ctx, scratch)
         with ThreadPoolExecutor(16) as ex:
-            recs = list(ex.map(run_job, jobs))
+            recs = list(ex.map(safe_job, jobs))
     finally:
         common.rmtree(scratch)
     okrecs = [r for r in recs if r['ok']]
@@ -785,7 +795,10 @@ def run_projects(ctx: Ctx, oracle_only: bool = False, jobs_fn=make_jobs) -> T.Li
             if len(ctx.samples) < 4 and group == 'gen':
                 ctx.sample({'label': label, 'seed': job.get('seed'), 'edges': ne, 'reqs': len(r['reqs'])})
         else:
-            if r.get('timeout'):
+            if r.get('harness_error'):
+                ctx.tag('harness-error:' + group)
+                ctx.notes.append(f'{job.get("name") or label}: {r["error"]}')
+            elif r.get('timeout'):
                 ctx.tag('timeout:' + group)
                 ctx.notes.append(f'timeout configuring {job.get("name") or label}')
             elif group == 'collision':
@@ -1159,6 +1172,36 @@ def run_canon(ctx: Ctx) -> None:
             ctx.disagreement({'kind': 'canon', 'input': c, 'lean': dec(a), 'oracle': py_canon(c)})
 
 
+def run_quote(ctx: Ctx) -> None:
+    """ninja_quote(name, True) of the implementation vs the model; and the property on the implementation: what is
+    written for a name is read back as that name (the independent reader `_expand`), `|` being the known exception"""
+    from mesonbuild.backend import ninjabackend as NB
+    rng = ctx.rng
+    alphabet = list('ab.-_/ $:|#\\\'"é中@~') + ['$$', ' :', '  ']
+    cases = ['', 'a', 'a b', 'a:b', 'a$b', 'a|b', '$', ':', ' ', 'é b', 'x$ y', 'a$:b']
+    for _ in range(ctx.scale(1500, 15000)):
+        cases.append(''.join(rng.choice(alphabet) for _ in range(rng.randint(0, 8))))
+    quoted = [NB.ninja_quote(c, True) for c in cases]
+    ans = ctx.driver('ninja', ['quote ' + enc(c) for c in cases] + ['readpath ' + enc(q + ': phony') for q in quoted]) \
+        if ctx.model_available else None
+    for k, (c, q) in enumerate(zip(cases, quoted)):
+        ctx.count()
+        ctx.tag('quote:' + ('pipe' if '|' in c else 'plain'))
+        toks = _expand(q + ': phony', {}, path_mode=True)
+        first = toks[0] if toks and isinstance(toks[0], str) else ''
+        if c and first != c:
+            key = 'pipe-in-path' if '|' in c else f'quote-readback:{c!r}'
+            ctx.violation(key, 'ninja_quote(name, True) is not read back as the name', {'name': c, 'quoted': q, 'read': first})
+        if ans is not None:
+            ctx.extra['disagreements_checked'] = ctx.extra.get('disagreements_checked', 0) + 2
+            if dec(ans[k]) != q:
+                ctx.disagreement({'kind': 'quote', 'input': c, 'impl': q, 'model': dec(ans[k])})
+            a = ans[len(cases) + k]
+            lean_first = dec(a.split('|')[1]) if a.startswith('OK|') else a
+            if c and lean_first != first:
+                ctx.disagreement({'kind': 'readpath', 'input': q, 'lean': a[:120], 'oracle': first})
+
+
 # ---------------------------------------------------------------------------------------------------------------
 
 def run(ctx: Ctx) -> None:
@@ -1183,7 +1226,8 @@ def run(ctx: Ctx) -> None:
         t.append(time.time())
         ctx.notes.append(f'phase {name}: {t[-1] - t[-2]:.1f}s')
     run_canon(ctx)
-    lap('canon')
+    run_quote(ctx)
+    lap('canon+quote')
     recs = run_projects(ctx)
     lap('projects')
     run_graphs(ctx)
